@@ -543,3 +543,9 @@ REQUIRED_THEOREMS = REQUIRED_THEOREMS + ['Cv.C01Solve.cholesky_correct', 'Cv.C01
 _np = list(NOT_PROVED)
 _np = [(None if 'L*L^T = A in exact arithmetic (Cholesky)' in str(x) else x) for x in _np]
 NOT_PROVED = [x for x in _np if x is not None]
+
+# --- deep theorems (RoundingLU)
+PROOF_MODULES = PROOF_MODULES + ['Compute.Props.RoundingLU', 'Compute.Lemmas.FactorRounding', 'Compute.Lemmas.FactorRoundingLu', 'Compute.Lemmas.FactorRoundingLuStruct', 'Compute.Lemmas.FactorRoundingLuSolveStruct']
+REQUIRED_THEOREMS = REQUIRED_THEOREMS + ['Cv.RoundingLU.cholesky_backward_error', 'Cv.RoundingLU.cholesky_backward_error_symm', 'Cv.RoundingLU.lu_backward_error', 'Cv.RoundingLU.lu_multipliers_le_one_rounded', 'Cv.FactorRounding.cholLoops_backward_error']
+NOT_PROVED = [x for x in NOT_PROVED if not any(k in str(x) for k in ('floating-point rounding of the reconstruction residuals',))]
+NOT_PROVED = NOT_PROVED + ["reconstruction residuals in floating point: PROVED in the standard model (Props/RoundingLU): |L L^T - A| <= gamma_(n+1)|L||L^T| and |L U - P A| <= gamma_n |L||U| for the computed factors; the oracle's norm-wise tolerance c n eps ||A|| additionally relies on the (unproved) growth factor"]
